@@ -244,7 +244,179 @@ def c14(res, tier, deadline):
             lambda c: ["replay", c["case"]] if c.get("kind") != "crash" else c["crash_args"])
 
 
+
+# --------------------------------------------------------------------------
+# E4 schedx (C16)
+
+E4DIR = os.path.join(C.VERIF, "e4")
+
+
+def _e4_key():
+    return C.tree_hash([E4DIR], "e4")
+
+
+def _e4_build(res):
+    d = C.build_dir(_e4_key())
+    out = {"sched": os.path.join(d, "schedx"), "free_gcc": os.path.join(d, "freerun_gcc"),
+           "free_clang": os.path.join(d, "freerun_clang")}
+    jobs = []
+    if not os.path.exists(out["sched"]):
+        def build_sched():
+            rt = os.path.join(d, "mc_rt.o")
+            ob = os.path.join(d, "schedx.o")
+            rc, so, se = C.run_cmd(["gcc", "-O1", "-c", os.path.join(E4DIR, "mc_rt.c"), "-o", rt])
+            if rc:
+                return "mc_rt.c: " + se[-1500:]
+            # instrumentation at compile time only: every load / store of the
+            # harness bodies and of the yomm2 headers calls a __tsan_* hook
+            rc, so, se = C.run_cmd(["g++", "-std=c++17", "-O1", "-w", "-fsanitize=thread",
+                                    "-D" + C.GUARD, "-I" + C.INCLUDE, "-I" + E4DIR, "-c",
+                                    os.path.join(E4DIR, "schedx.cpp"), "-o", ob], timeout=1800)
+            if rc:
+                return "schedx.cpp: " + se[-1500:]
+            rc, so, se = C.run_cmd(["g++", ob, rt, "-o", out["sched"] + ".tmp", "-lpthread", "-ldl"])
+            if rc:
+                return "link: " + se[-1500:]
+            os.replace(out["sched"] + ".tmp", out["sched"])
+            return ""
+        jobs.append(build_sched)
+    for name, cxx in (("free_gcc", "g++"), ("free_clang", "clang++")):
+        if not os.path.exists(out[name]):
+            def build_free(name=name, cxx=cxx):
+                rc, so, se = C.run_cmd([cxx, "-std=c++17", "-O1", "-w", "-fsanitize=thread", "-DFREE_RUN",
+                                        "-D" + C.GUARD, "-I" + C.INCLUDE, "-I" + E4DIR,
+                                        os.path.join(E4DIR, "schedx.cpp"), "-o", out[name] + ".tmp"],
+                                       timeout=1800)
+                if rc:
+                    return name + ": " + se[-1500:]
+                os.replace(out[name] + ".tmp", out[name])
+                return ""
+            jobs.append(build_free)
+    with cf.ThreadPoolExecutor(max_workers=4) as ex:
+        for err in ex.map(lambda f: f(), jobs):
+            if err:
+                res.harness_errors.append("E4 build failed against %s:\n%s" % (C.INCLUDE, err))
+    C.prune_build({_e4_key()})
+    return out if not res.harness_errors else None
+
+
+@check("C16")
+def c16(res, tier, deadline):
+    import json
+    res.rule = ("harness bodies (calls by reference incl. error cells with a throwing handler, "
+                "resolve, virtual_ptr from a base reference / copies / final, virtual_shared_ptr "
+                "copies with atomic reference counts, and update<> of an unrelated policy) run as 2-3 "
+                "real threads under a controlled scheduler whose scheduling points are the memory "
+                "accesses of the real call path (compile-time -fsanitize=thread instrumentation "
+                "bound to an own runtime): DFS over all interleavings with <= 2 (3 thorough) "
+                "preemptions at conflicting accesses, atomics and thread start/end; conflict set "
+                "grown to a fixpoint; oracles: vector-clock happens-before race monitor, per-thread "
+                "results == sequential table, no deadlock/livelock. Then the same bodies free-running "
+                "under the real ThreadSanitizer (g++ and clang++). states = schedules executed; "
+                "non-trivial = schedules with at least one preemption.")
+    res.assumptions = [
+        "sequentially consistent interleavings of the accesses the compiler emitted at -O1; weak-memory reorderings are not modelled (the property's argument is 'no writes on the call path')",
+        "uninstrumented libc / libstdc++ code is invisible to the hooks; memory returned to the allocator is treated as handed over (free() clears the shadow state)",
+        "the engine self-test (a seeded check-then-act cache) must be found on every run, else the run is a harness error"]
+    b = _e4_build(res)
+    if not b:
+        return
+    rc, so, se, dt = small.run(b["sched"], [tier, "list"], timeout=300)
+    scenarios = [l.strip() for l in so.splitlines() if ":" in l and not l.startswith("SELFTEST")]
+    if not scenarios:
+        res.harness_errors.append("no scenarios listed: " + se[-300:])
+        return
+    cands = []
+    with cf.ThreadPoolExecutor(max_workers=C.NCPU) as ex:
+        futs = {ex.submit(small.run, b["sched"], [tier, sc], 3000): sc for sc in scenarios}
+        for f in cf.as_completed(futs):
+            sc = futs[f]
+            rc, so, se, dt = f.result()
+            got = False
+            for line in so.splitlines():
+                if line.startswith("HARNESS\t"):
+                    res.harness_errors.append(line)
+                elif line.startswith("SELFTEST\t"):
+                    st = json.loads(line.split("\t", 1)[1])
+                    res.extra["selftest"] = st
+                elif line.startswith("SCENARIO\t"):
+                    s = json.loads(line.split("\t", 1)[1])
+                    got = True
+                    res.states += s["executions"]
+                    res.traces += s["executions"]
+                    res.transitions += sum(s["reads"]) + sum(s["writes"]) + sum(s["atomics"])
+                    res.nontrivial += max(0, s["executions"] - s["threads"])
+                    complete = not s["budget_hit"]
+                    if not complete:
+                        res.exhaustive = False
+                    res.bounds.append({"run": "schedx " + s["name"], "complete": complete,
+                                       "preemption_bound_completed": s["bound_completed"],
+                                       "wall_s": round(dt, 2), "counters": s})
+                    if len(res.samples) < 6:
+                        res.samples.append({"scenario": s["name"], "schedules": s["executions"],
+                                            "outcome": s["sample_outcome"]})
+                elif line.startswith("CAND\t"):
+                    p = line.split("\t")
+                    cands.append({"case": sc, "kind": "schedule", "detail": " | ".join(p[2:]),
+                                  "replay_args": [tier, sc]})
+            if not got:
+                cands.append({"case": sc, "kind": "crash", "replay_args": [tier, sc],
+                              "detail": "explorer process ended with %s: %s" % (small.sig_name(rc), se[-300:])})
+    # free-running pass under the real ThreadSanitizer
+    iters = "300" if tier == "quick" else "3000"
+    env = {"TSAN_OPTIONS": "halt_on_error=1 exitcode=66 report_signal_unsafe=0"}
+    for name in ("free_gcc", "free_clang"):
+        rc, so, se, dt = small.run(b[name], [iters], timeout=3000, env=env)
+        res.transitions += 1
+        ok = rc == 0 and "FREERUN" in so
+        res.bounds.append({"run": "real ThreadSanitizer, free running (%s)" % name, "complete": True,
+                           "wall_s": round(dt, 2), "counters": {"iterations": int(iters), "rc": rc}})
+        if not ok:
+            cands.append({"case": "freerun:" + name, "kind": "tsan",
+                          "detail": (se + so)[-600:].replace("\n", " | "),
+                          "replay_args": [iters], "binary": name})
+    # triage: every scenario with candidates is replayed (the exploration is
+    # deterministic); report the first candidate of each
+    known = C.load_known()
+    seen = set()
+    for c in cands:
+        c["engine"] = "E4"
+        k = C.match_known(known, res.prop, c)
+        if k is not None:
+            res.known_hits.setdefault(k["id"], (k, c))
+            continue
+        if c["case"] in seen:
+            continue
+        seen.add(c["case"])
+        binary = b.get(c.get("binary", ""), b["sched"])
+        e = env if c["kind"] == "tsan" else None
+        r1 = small.run(binary, c["replay_args"], timeout=3000, env=e)
+        bad = (r1[0] != 0) or ("CAND\t" in r1[1])
+        if bad:
+            res.confirmed.append(c)
+        else:
+            res.harness_errors.append("candidate did not reproduce: %s :: %s" % (c["case"], c["detail"][:200]))
+    res.counters["distinct_outcomes_max"] = max([x["counters"].get("distinct_outcomes", 0)
+                                                 for x in res.bounds if "distinct_outcomes" in x["counters"]] or [0])
+
+
 def replay(prop, cand, path):
+    if cand.get("engine") == "E4":
+        res = C.Result(prop, "quick")
+        b = _e4_build(res)
+        if not b:
+            for e in res.harness_errors:
+                print(e, file=sys.stderr)
+            return 2
+        binary = b.get(cand.get("binary", ""), b["sched"])
+        env = {"TSAN_OPTIONS": "halt_on_error=1 exitcode=66"} if cand.get("kind") == "tsan" else None
+        rc, so, se, dt = small.run(binary, cand["replay_args"], timeout=3000, env=env)
+        sys.stdout.write(so[-3000:])
+        if rc != 0 or "CAND\t" in so:
+            print("VIOLATION property=%s replay=%s" % (prop, path))
+            return 1
+        print("not reproduced: property holds on this scenario")
+        return 0
     eng = {"E3": E3, "E6": E6, "E7": E7, "E2ISO": E2ISO}.get(cand.get("engine"))
     if eng is None:
         print("unknown engine in replay file", file=sys.stderr)
